@@ -26,6 +26,7 @@ RULE = (
     "1..64 statements, rows with more temporaries than statements)."
     " Model values of three programs whose intermediates overflow to inf (1/(1+exp(896))) are compared on / off / reference at points that reach the overflow."
     " Saturation constructs (Piecewise with comparisons) shared by several outputs, so that CSE hoists them into temporaries (Python and C++; multi-line C statements are joined before the def-use pass)."
+    " For definitions with calibration the C++ side is evaluated with two calibrations in one process (the calibration is read per point); programs whose temporaries depend only on the control / the calibration / dt are in the C++ subset of both tiers."
 )
 ASSUMPTIONS = ["bounds as C01/C02; Python temporaries are observed behaviourally (a temporary used before assignment raises)"]
 REL = 1e-9
